@@ -188,6 +188,13 @@ class Built:
         self.records = records
 
 
+class _Attr:
+    """a record part whose value is reached by attribute access"""
+
+    def __init__(self, v):
+        self.v = v
+
+
 def _records(spec):
     recs = [tuple(r) for r in spec["records"]]
     if spec.get("nt"):
@@ -208,10 +215,19 @@ def build_object(spec, enums):
             kw["fields"] = list(spec["fields"])
         if spec.get("types"):
             kw["fields_types"] = {n: enums[i] for n, i in spec["types"].items()}
+        if spec.get("wtypes"):
+            # plain field types with their own default width bounds
+            ft = kw.setdefault("fields_types", {})
+            for n, (lo, hi) in spec["wtypes"].items():
+                ft.setdefault(n, FieldType(min_width=lo, max_width=hi))
         if spec.get("titles"):
             kw["fields_titles"] = dict(spec["titles"])
         if spec.get("limits") is not None:
             kw["limits"] = tuple(spec["limits"])
+        if spec.get("enhanced"):
+            # records of a complex structure: the positions come with the format ("name<-0.1")
+            kw.pop("fields", None)
+            recs = [(tuple(r[:2]), {"k": r[2] if len(r) > 2 else None}, _Attr(r[-1])) for r in spec["records"]]
         if spec.get("skip_columns"):
             kw["skip_columns"] = list(spec["skip_columns"])
         t = PPTable(recs, header=spec.get("header"), footer=spec.get("footer"), fmt=spec.get("fmt"), **kw)
